@@ -303,6 +303,22 @@ func (r *c17Rec[T]) Trace() string {
 	return strings.Join(parts, " ")
 }
 
+// c17Quiesce settles without moving the clock, robustly: an actor spin-waiting on the library's spin lock is
+// re-enabled only when a runnable actor takes a step; if the lock holder released the lock on its way into a
+// sleep or a blocking operation, Settle reports a quiescence that hides an actor which could run. A step of the
+// driver re-enables the spinners; repeat until nobody moves.
+func c17Quiesce(e *Env) {
+	for i := 0; i < 16; i++ {
+		e.Settle()
+		before := e.Step()
+		e.Yield()
+		e.Settle()
+		if e.K.Capped() || e.Step()-before <= 2 {
+			return
+		}
+	}
+}
+
 func c17Subscribe[T any](e *Env, o ro.Observable[T], obs ro.Observer[T]) *SubHandle {
 	h := &SubHandle{Invoke: e.Step()}
 	h.Actor = e.Go("subscriber", func() {
@@ -380,6 +396,7 @@ func runC17Collect(e *Env) {
 			retStep = e.Step()
 		})
 		e.SettleFor(settle)
+		c17Quiesce(e)
 		if e.K.Capped() {
 			return
 		}
@@ -432,6 +449,7 @@ func runC17Collect(e *Env) {
 		events, trace = func() []c17Ev { return rec.Events }, rec.Trace
 	}
 	e.SettleFor(settle)
+	c17Quiesce(e)
 	if e.K.Capped() {
 		return
 	}
@@ -620,6 +638,7 @@ func runC17ToChannel(e *Env) {
 		}
 	}
 	e.SettleFor(long)
+	c17Quiesce(e)
 	if e.K.Capped() {
 		return
 	}
@@ -781,12 +800,14 @@ func runC17FromChannel(e *Env) {
 			e.K.Log("Unsubscribe returned")
 		})
 		e.RunUntil(func() bool { return unsubReturned || unsubSkipped }, int((at+long)/Unit)+2)
+		c17Quiesce(e)
 		if e.K.Capped() {
 			return
 		}
 		eventsAtSettle = len(rec.Events)
 	}
 	e.SettleFor(long)
+	c17Quiesce(e)
 	if e.K.Capped() {
 		return
 	}
@@ -861,6 +882,7 @@ func runC17Materialize(e *Env) {
 	e.Subscribe(plainSrc.Obs(), plain.Observer(), nil)
 	e.Subscribe(ro.Dematerialize[int]()(ro.Materialize[int]()(tripSrc.Obs())), trip.Observer(), nil)
 	e.SettleFor(dur(c17Span(spec) + 4))
+	c17Quiesce(e)
 	if e.K.Capped() {
 		return
 	}
